@@ -416,6 +416,7 @@ PROPS = {
         "runs": [
             {"family": "wire", "flags": [], "quick": {"cases": 1500, "max_len": 6}, "thorough": {"cases": 40000, "max_len": 10}},
             {"family": "hist", "flags": [], "quick": HIST_Q, "thorough": HIST_T},
+            {"family": "hist", "flags": ["--foreign"], "quick": {"cases": 300, "max_len": 35}, "thorough": {"cases": 6000, "max_len": 60}},
         ],
         "judge_preds": ["format", "order", "secret", "roundtrip", "foreign", "wire"],
         "nontrivial": lambda imp, ops: any(l.startswith("DEC") or l.startswith("ENC") for l in ops) or any(" -> ok v" in l for l in imp),
@@ -427,7 +428,7 @@ PROPS = {
                 "\\uXXXX incl. surrogate pairs, \\/, upper-case / simple / braced uuids, timestamps with 0-9 fraction digits and Z / +00:00 / -00:00 / +02:00 / -05:30 offsets), "
                 "and one in six with a single defect (truncated or non-hex uuid, missing or duplicated field, extra field, bad timestamp, number for a string, unknown operation, "
                 "truncated document, trailing bytes, invalid UTF-8) — the real decoder (hook, same serde path as TaskDb::sync) and the model's reader must agree on operations "
-                "or rejection. hist family: every version really sent by Replica::sync in random multi-replica histories must satisfy the same decode / re-print law (predicate wire). "
+                "or rejection. hist --foreign: versions written by another implementation (built by the harness; they may contain a Create of a task that exists, which is invalid where it stands) land on the server among the replicas' own syncs and every replica's requests, results and stored tasks must equal the model's (applying an invalid operation changes nothing and loses nothing that is pending). hist family: every version really sent by Replica::sync in random multi-replica histories must satisfy the same decode / re-print law (predicate wire). "
                 "non-trivial = every wire case; hist cases in which a version was accepted; distinct by SHA-1",
         "trusted_base": TB_COMMON + ["serde_json / chrono / uuid are exercised, not modelled; the model's reader is an independent implementation of the documented grammar"],
         "assumptions": ["partial: the whole-document round trip decode(print ops) = ops is checked per run and on a kernel-evaluated example, not proved for all ops (string level is proved)"],
